@@ -118,6 +118,11 @@ class Generator:
         if not top:
             self.emit('#[allow(unused_imports)] use crate::vshim;\n')
         self.emit('#[allow(unused_imports)] use crate::vspec::*;\n')
+        mc = self.contract_for(rel + '::@module')
+        if not top and not (mc and 'nobroadcast' in mc.attrs):
+            self.emit('broadcast use {crate::vfrom::group_from, crate::std_specs::axiom_into_iter_seq_slice};\n')
+        if mc and mc.ghost:
+            self.emit(mc.ghost, 'spec', src_file=mc.src)
         for it in items:
             if any(re.match(r'#\[cfg\(test\)\]', a) for a in it.attrs):
                 self.rules.hit('R12')
